@@ -125,6 +125,27 @@ func endsWithExpression(stmt Statement) bool {
 	return false
 }
 
+// endsWithOpenIf reports whether the text of the statement ends with an if
+// statement that has no else branch, so that an else written after it would
+// be read as belonging to that if.
+func endsWithOpenIf(stmt Statement) bool {
+	switch v := stmt.(type) {
+	case *IfStatement:
+		if v == nil {
+			return false
+		}
+		if v.ElseBranch == nil {
+			return true
+		}
+		return endsWithOpenIf(v.ElseBranch)
+	case *WhileStatement:
+		return v != nil && endsWithOpenIf(v.Body)
+	case *ForStatement:
+		return v != nil && endsWithOpenIf(v.Body)
+	}
+	return false
+}
+
 // startsWithContinuation reports whether the first token written for the
 // expression is '(', '[', a backtick or a unary minus.
 func startsWithContinuation(e Expression) bool {
@@ -313,11 +334,26 @@ func (ifs *IfStatement) WriteTo(cw *CodeWriter) {
 	ifs.Condition.WriteTo(cw)
 	cw.WriteRune(')')
 	cw.WriteSpace()
-	ifs.ThenBranch.WriteTo(cw)
+	// A then-branch that ends with an if without else would take this
+	// statement's else (dangling else): it is printed as a block
+	wrap := ifs.ElseBranch != nil && endsWithOpenIf(ifs.ThenBranch)
+	if wrap {
+		cw.WriteRune('{')
+		cw.WriteNewline()
+		cw.IncreaseIndent()
+		cw.WriteIndent()
+		ifs.ThenBranch.WriteTo(cw)
+		cw.DecreaseIndent()
+		cw.WriteNewline()
+		cw.WriteIndent()
+		cw.WriteRune('}')
+	} else {
+		ifs.ThenBranch.WriteTo(cw)
+	}
 	if ifs.ElseBranch != nil {
 		// With optional semicolons omitted, the one before 'else' is still
 		// required when the branch ends with an expression (not with a block)
-		if cw.PrettyPrint && !cw.WriteSemicolons && endsWithExpression(ifs.ThenBranch) {
+		if !wrap && cw.PrettyPrint && !cw.WriteSemicolons && endsWithExpression(ifs.ThenBranch) {
 			cw.WriteRune(';')
 		}
 		cw.WriteString(" else ")
